@@ -88,15 +88,17 @@ Proof.
   cbn [snd]. rewrite digitpart_all by assumption. reflexivity.
 Qed.
 
-Lemma lim_bound_eq : lim_bound = 10 ^ int_max_str_digits.
-Proof. vm_compute. reflexivity. Qed.
+(* for a limit k as a variable (no tactic ever sees the numeral 10^4300) *)
+Lemma over_limit_pow k z : 1 <= k -> over_limit k (zlen (show_nat (Z.abs z))) = negb (Z.abs z <? 10 ^ k).
+Proof.
+  intros Hk. unfold over_limit. rewrite <- (show_nat_len (Z.abs z) k) by lia. lia.
+Qed.
+
+Lemma one_le_limit : 1 <= int_max_str_digits.
+Proof. discriminate. Qed.
 
 Lemma over_limit_int z : over_limit int_max_str_digits (zlen (show_nat (Z.abs z))) = negb (int_in_limit z).
-Proof.
-  unfold over_limit, int_in_limit. rewrite lim_bound_eq. unfold int_max_str_digits.
-  change (0 <? 4300) with true. cbn [andb].
-  pose proof (show_nat_len (Z.abs z) 4300) as H. rewrite <- H by lia. lia.
-Qed.
+Proof. exact (over_limit_pow int_max_str_digits z one_le_limit). Qed.
 
 (* under the guard: str() and int() are the unlimited conversions and round-trip *)
 Theorem int_limit_ok z : int_in_limit z = true ->
